@@ -123,17 +123,17 @@ func (w *world) seqStep(g simrt.Gen) {
 	room := len(w.led.nodes) < maxNodes
 	misuse := len(closed) > 0 || len(attached) > 0 || len(withProto) > 0 || len(noProto) > 0
 	switch g.Weighted(
-		wt(room, 6),                 // 0 OpenConnection
-		wt(len(unattached) > 0, 5),  // 1 SetPeer
-		wt(room, 6),                 // 2 OpenStream
-		wt(len(noProto) > 0, 7),     // 3 SetProtocol
-		wt(len(noSvc) > 0, 7),       // 4 SetService
-		9,                           // 5 ReserveMemory
-		wt(len(holding) > 0, 4),     // 6 ReleaseMemory
-		wt(room, 3),                 // 7 BeginSpan
-		wt(len(closable) > 0, 4),    // 8 Done
-		1,                           // 9 clock
-		wt(misuse, 2),               // 10 operations on closed scopes / repeated attachment
+		wt(room, 6),                // 0 OpenConnection
+		wt(len(unattached) > 0, 5), // 1 SetPeer
+		wt(room, 6),                // 2 OpenStream
+		wt(len(noProto) > 0, 7),    // 3 SetProtocol
+		wt(len(noSvc) > 0, 7),      // 4 SetService
+		9,                          // 5 ReserveMemory
+		wt(len(holding) > 0, 4),    // 6 ReleaseMemory
+		wt(room, 3),                // 7 BeginSpan
+		wt(len(closable) > 0, 4),   // 8 Done
+		1,                          // 9 clock
+		wt(misuse, 2),              // 10 operations on closed scopes / repeated attachment
 	) {
 	case 0:
 		// endpoints: half of the time the endpoint of an earlier connection (open or closed), so that
